@@ -1,11 +1,13 @@
 import Driver.Common
 import Driver.Dominance
 import Driver.Archive
+import Driver.Catchment
 
 def main (args : List String) : IO UInt32 := do
   match args with
   | ["dominance"] => Driver.runPure Driver.Dominance.step; return 0
   | ["archive-ops"] => Driver.run [] Driver.Archive.step; return 0
+  | ["catchment"] => Driver.run ({} : Driver.Catchment.St) Driver.Catchment.step; return 0
   | _ =>
     IO.eprintln "usage: driver <suite>"
     return 2
